@@ -1035,7 +1035,7 @@ impl Check for C10 {
         "C10"
     }
     fn families(&self, _tier: Tier) -> Vec<&'static str> {
-        vec!["runtime", "runtime", "combined", "iterations", "size", "combined", "ksp", "edge", "combined", "yens", "runtime", "deadends", "ksp"]
+        vec!["runtime", "runtime", "combined", "iterations", "size", "combined", "ksp", "edge", "combined", "yens", "neighbour", "deadends", "ksp"]
     }
     fn default_runs(&self, tier: Tier) -> u64 {
         match tier {
@@ -1044,6 +1044,35 @@ impl Check for C10 {
         }
     }
     fn gen(&self, seed: u64, family: &str, tier: Tier) -> Case {
+        if family == "neighbour" {
+            // "a search is stopped by its limits only": a second caller thread runs a batch of its own on the same
+            // application, into a response file whose disk fills up or breaks and stays that way (its run() may
+            // fail). The first caller's searches are walked with the reference model of the limits as ever (round 6)
+            let mut c = gen(seed, if seed % 2 == 0 { "runtime" } else { "combined" }, tier);
+            c.family = family.to_string();
+            let mut r = Rng::new(seed ^ fnv64("C10-neighbour"));
+            let mut other: Vec<Value> = vec![];
+            for q in c.batches[0].iter() {
+                let mut q2 = q.clone();
+                q2["_qid"] = json!(q["_qid"].as_u64().unwrap_or(0) + 1000);
+                other.push(q2);
+            }
+            while other.len() < 4 {
+                let mut q2 = other[r.below(other.len() as u64) as usize].clone();
+                q2["_qid"] = json!(2000 + other.len() as u64);
+                other.push(q2);
+            }
+            c.batches.push(other);
+            c.world.out = Some(crate::world::OutFile { format: crate::world::OutFormat::Json, flush_rate: None, preexisting: false });
+            c.world.persist = true;
+            c.world.per_run_sinks = Some(vec![0, 1]);
+            c.simcfg.faults |= sim::F_SHORT_WRITE | *r.pick(&[sim::F_ENOSPC_WRITE, sim::F_EIO_WRITE, sim::F_ZERO_WRITE]);
+            c.simcfg.io_fault_rate = *r.pick(&[0.2, 0.5, 0.9]);
+            c.simcfg.max_hard_faults = 1;
+            c.simcfg.fault_paths = vec!["/sim/out".into()];
+            c.params = json!({"two_callers": true});
+            return c;
+        }
         gen(seed, family, tier)
     }
     fn run(&self, case: &Case, fatal_fd: i32) -> ChildResult {
